@@ -49,6 +49,10 @@ func (q *QueryRangeController) QueryRange(w http.ResponseWriter, r *http.Request
 		PromError(400, err.Error(), w)
 		return
 	}
+	if stepMs := int64(step * 1000); stepMs <= 0 || end < start || (end-start)/1e6/stepMs > 11000 {
+		PromError(400, "step must be positive, end must not be before start and the window must not exceed 11000 steps", w)
+		return
+	}
 	ch, err := q.QueryRangeService.QueryRange(internalCtx, query, int64(start), int64(end), int64(step*1000),
 		limit, direction == "forward")
 	if err != nil {
@@ -136,6 +140,10 @@ func (q *QueryRangeController) Query(w http.ResponseWriter, r *http.Request) {
 	}
 	if err != nil {
 		PromError(400, err.Error(), w)
+		return
+	}
+	if !(int64(step*1000) > 0) {
+		PromError(400, "step must be a positive number of seconds (at least 1ms)", w)
 		return
 	}
 	ch, err := q.QueryRangeService.QueryInstant(internalCtx, query, iTime, int64(step*1000),
